@@ -6,7 +6,7 @@ TRUSTED_BASE = [
     "Lean compiler: the driver executable runs the compiled form of the definitions the theorems are about",
     "correspondence check (harness generators, canonical text form, line comparison): differential testing of model vs. real code, bounded by what is generated (see coverage.distribution)",
     "std Rc/Arc/Weak/RefCell/RwLock, ahash maps: modelled (keys instead of pointers, lists instead of Vec), not verified",
-    "serde_json: modelled at byte level for the document type of the harness (Model/Json.lean) and compared with the real parser/printer on raw bytes; serde_cbor: trusted to be the identity on well-typed documents, exercised on raw bytes for robustness only",
+    "serde_json: modelled at byte level for the document type of the harness (Model/Json.lean) and compared with the real parser/printer on raw bytes; serde_cbor: modelled at byte level likewise (Model/Cbor.lean) and compared on raw bytes",
 ]
 
 EDGE_RULE = ("exhaustive: breadth-first exploration of the implementation's abstract state space (state = dump of all adjacency lists), "
@@ -102,11 +102,11 @@ _CONT = {
          "Machine-checked proof (Lean 4) of Kosaraju's algorithm as implemented (first pass: postorder forest threaded through the visited filter in hash-map order; second pass: transposed preorder among unassigned nodes in decreasing finishing position): for every iteration order of a closed container the result is a partition of the members, two nodes share a component exactly when each reaches the other, and as a set of sets it does not depend on the order - via the component-root lemma on the non-deterministic DFS relation. Tied to digraph/sync_digraph by exact correspondence under the annotated hash order (all digraphs on <=3 (quick) / <=4 (thorough) nodes x 4 container instances and insertion orders, random to 30 nodes) and a mutual-reachability partition oracle on the real output.",
          "Lean 4 proof of Kosaraju (component-root lemma, two-pass invariants, every iteration order) + model/implementation correspondence under observed hash order + partition oracle"),
  "C12": ([("GdslModel.Props.C12", "G.Serde." + t) for t in ["roundtrip", "roundtrip_inn", "nonmember_error"]],
-         "Machine-checked proof (Lean 4) that, for every iteration order of the hash map, rebuilding the decomposition of a closed container yields the same keys and node values, every member's outgoing (directed) / outbound half-edge (undirected) list exactly and in order, a mirrored store, and per source the same incoming values (hence the same multiset of incident edges); a non-member neighbour makes the document undeserialisable. The JSON byte format is inside the model for the payload types of the harness (Model/Json.lean: the writer print, the reader parse; parse (print d) = some d and the whole byte-level round trip are theorems, and the bytes serde_json writes are compared with print on every case); the CBOR byte format is trusted to be the identity on the pair of lists; the real serde_json/serde_cbor round trips of all four containers are compared with the model (all connect sequences on <=3 nodes, random to 40 nodes) and checked by a structural-equality oracle.",
-         "Lean 4 proof (decompose/rebuild round trip for every iteration order; byte-level JSON writer/reader round trip) + model/implementation correspondence through real serde_json and serde_cbor + structural oracle"),
+         "Machine-checked proof (Lean 4) that, for every iteration order of the hash map, rebuilding the decomposition of a closed container yields the same keys and node values, every member's outgoing (directed) / outbound half-edge (undirected) list exactly and in order, a mirrored store, and per source the same incoming values (hence the same multiset of incident edges); a non-member neighbour makes the document undeserialisable. The JSON byte format is inside the model for the payload types of the harness (Model/Json.lean: the writer print, the reader parse; parse (print d) = some d and the whole byte-level round trip are theorems, and the bytes serde_json writes are compared with print on every case); the CBOR byte format likewise (Model/Cbor.lean: shortest-form writer, reader with all integer widths, indefinite lengths, tags and the recursion budget; Cbor.parse_print, Cbor.roundtrip_bytes; the bytes serde_cbor writes are compared with Cbor.print on every case); the real serde_json/serde_cbor round trips of all four containers are compared with the model (all connect sequences on <=3 nodes, random to 40 nodes) and checked by a structural-equality oracle.",
+         "Lean 4 proof (decompose/rebuild round trip for every iteration order; byte-level JSON and CBOR writer/reader round trips) + model/implementation correspondence through real serde_json and serde_cbor + structural oracle"),
  "C13": ([("GdslModel.Props.C13", "G.Serde." + t) for t in ["undeclared_is_error", "first_key_wins", "ok_is_wellformed"]],
-         "Machine-checked proof (Lean 4) about the structural layer of deserialisation (the visitor over the two lists): an error exactly when an edge names an undeclared key; repeated keys keep the first declaration; an Ok graph is mirrored, its nodes come from the document and every node's lists are exactly the listed edges in document order; the function has no panic outcome. At byte level the JSON reader is inside the model (Model/Json.lean, for K=usize, N=i64, E=u32): deJson is a total function of the bytes (no panic outcome), everything it accepts is in range and goes through the visitor (de_ok_wellformed, de_error_iff), white space around a document is irrelevant, and no proper prefix of a written document is accepted (truncated_is_error); that serde_json accepts exactly this language is the correspondence on raw bytes (every single white-space/number-literal/punctuation/truncation/trailing edit of seed documents plus random byte edits, compared exactly). CBOR byte-level parsing (serde_cbor) is outside the model: raw CBOR documents (every item header x boundary arguments, widths, major types, indefinite lengths, reserved values, tags; truncations; random edits) are validation only (no panic, no abort, Err or an Ok graph satisfying the invariants), stated in the evidence.",
-         "Lean 4 proof of the structural layer and of the byte-level JSON reader + exact correspondence on structural mutations (JSON and CBOR) and on raw JSON bytes + robustness validation on raw CBOR bytes"),
+         "Machine-checked proof (Lean 4) about the structural layer of deserialisation (the visitor over the two lists): an error exactly when an edge names an undeclared key; repeated keys keep the first declaration; an Ok graph is mirrored, its nodes come from the document and every node's lists are exactly the listed edges in document order; the function has no panic outcome. At byte level the JSON reader is inside the model (Model/Json.lean, for K=usize, N=i64, E=u32): deJson is a total function of the bytes (no panic outcome), everything it accepts is in range and goes through the visitor (de_ok_wellformed, de_error_iff), white space around a document is irrelevant, and no proper prefix of a written document is accepted (truncated_is_error); that serde_json accepts exactly this language is the correspondence on raw bytes (every single white-space/number-literal/punctuation/truncation/trailing edit of seed documents plus random byte edits, compared exactly). The CBOR reader is inside the model in the same way (Model/Cbor.lean; Cbor.parse_inrange, de_ok_wellformed, de_error_iff, truncated_is_error, trailing_is_error), tied to serde_cbor by exact correspondence on raw CBOR documents (every item header x boundary arguments, widths, major types, indefinite lengths, reserved values, tags; truncations; random byte edits). Payload types other than usize/i64/u32 and the byte formats of other serde back ends are not modelled.",
+         "Lean 4 proof of the structural layer and of the byte-level JSON and CBOR readers + exact correspondence on structural mutations and on raw JSON and CBOR bytes"),
  "C18": ([("GdslModel.Props.C18", "G.Cont." + t) for t in ["insert_spec", "remove_spec", "nodup_insert", "nodup_remove", "len_insert", "len_remove", "order_spec", "views", "root_iff_no_member_edge", "dot_lines"]],
          "Machine-checked proof (Lean 4) that the container model refines a key set (insert adds iff absent and otherwise changes nothing, remove/contains/len are the map's, an accepted iteration order lists each member once), that roots/leaves/orphans are exactly the members without incoming/outgoing/any edge (and, with the mirror invariant, describe the edge set from both ends), and that the DOT exports have one node statement per member and one edge statement per iterated edge. Nodes are keys in the model, so 'hands out the inserted nodes themselves' is validated, not proved: container histories interleaved with edge operations through container handles are compared call by call with the model and with an independent reference map; DOT text is compared exactly under the annotated hash order and as a multiset of lines.",
          "Lean 4 refinement proof (container = key set; views; DOT line structure) + model/implementation correspondence of container histories + reference-map and DOT oracles"),
